@@ -40,6 +40,13 @@ def to_int(v):
     raise Unsupported('to_int of %s' % v.ty)
 
 
+def unwrap_opt(v):
+    """Opt[T] used where a T is needed: (inner Val, safety = is not None)."""
+    if isinstance(v, Val) and isinstance(v.ty, TOpt):
+        return Val(v.ty.inner, v.ty.get(v.t)), z3.Not(v.ty.is_none(v.t))
+    return v, TRUE
+
+
 def arith(op, a, b):
     """+ - * / // % on numbers; returns (Val, safety)."""
     if a.ty in (TInt, TBool) and b.ty in (TInt, TBool) and op != '/':
